@@ -195,10 +195,47 @@ pub struct Verdict {
     pub what: String,
 }
 
-/// One interruption point.
+/// One interruption point, in both error modes (the mode decides which execution errors are reported; a stop
+/// is never one that may be dropped), for the whole pipeline and for the VM stage on its own.
 pub fn check_stop_at(code: &[u8], interval: usize, k: u64) -> Result<(), Verdict> {
+    for permissive in [false, true] {
+        check_stop_at_mode(code, interval, k, permissive).map_err(|v| Verdict {
+            key: if permissive { format!("{}:permissive", v.key) } else { v.key },
+            what: if permissive { format!("{} (permissive error mode)", v.what) } else { v.what },
+        })?;
+    }
+    Ok(())
+}
+
+fn check_stop_at_mode(code: &[u8], interval: usize, k: u64, permissive: bool) -> Result<(), Verdict> {
+    let cfg = || sle::vm::Config::default().with_permissive_errors(permissive);
+    // the VM stage alone: once the watchdog has said stop, execute() must not report success
+    let (r, _) = with_controller(&Vec::new(), || -> Result<Option<(u64, bool, String)>, String> {
+        let stream = InstructionStream::try_from(code).map_err(|e| e.to_string())?;
+        let w = CountingWatchdog::new(interval, Some(k));
+        let mut vm = VM::new(stream, cfg(), w.clone()).map_err(|e| e.to_string())?;
+        let r = vm.execute();
+        let shown = format!("{r:?}");
+        Ok(Some((w.polls.get(), r.is_ok(), shown)))
+    });
+    if let Ok(Ok(Some((polls, ok, shown)))) = r {
+        if polls > k {
+            if ok {
+                return Err(Verdict {
+                    key: "vm-stage-succeeds-after-stop".into(),
+                    what: format!("the watchdog said stop at poll {k} (the VM polled {polls} times) but VM::execute returned Ok: its partial result would be taken for a complete one"),
+                });
+            }
+            if !shown.contains("StoppedByWatchdog") {
+                return Err(Verdict {
+                    key: "vm-stage-stop-not-reported".into(),
+                    what: format!("the watchdog said stop at poll {k}; VM::execute failed without a stopped-by-watchdog error: {}", shown.chars().take(300).collect::<String>()),
+                });
+            }
+        }
+    }
     let w = CountingWatchdog::new(interval, Some(k));
-    let o = analyze(code, sle::vm::Config::default(), &Vec::new(), w.clone());
+    let o = analyze(code, cfg(), &Vec::new(), w.clone());
     let polls = w.polls.get();
     if polls <= k {
         // the run ended before reaching poll k: nothing was interrupted
@@ -538,8 +575,8 @@ impl Check for C13 {
              0, 1, 32, 33, 320, limit+1; CALL return data with 3 sizes; a 12-slot idiom program; the shipped PackedEncodings and \
              SimpleContract) x poll intervals {:?}. For each (program, interval) the number of polls P of an uninterrupted run is \
              measured (twice, must agree; result must equal the unmonitored result) and then EVERY poll index k = 0..=P is used as the \
-             point from which the watchdog answers stop{}: the result must be a stopped-by-watchdog error, never a layout, within a \
-             bounded number of further polls. Separately each stage (VM, lift, assign_vars, infer, unify + layout) is driven with its \
+             point from which the watchdog answers stop{}, in strict and in permissive error mode: the result must be a stopped-by-watchdog error, never a layout, within a \
+             bounded number of further polls, and the VM stage run on its own must fail with a stopped-by-watchdog error too. Separately each stage (VM, lift, assign_vars, infer, unify + layout) is driven with its \
              own counting watchdog and its poll count is compared with independently measured work. non-trivial = every interruption \
              point and every stage measurement with work > interval; distinct by (program, interval, k | stage)",
             progs.len(),
